@@ -1,6 +1,7 @@
 package main
 
 import (
+	"os"
 	"encoding/hex"
 	"fmt"
 	"math"
@@ -368,9 +369,30 @@ func implStep(cur *ast.DataMessage, step []string) (next *ast.DataMessage, out s
 func implProg(t []string) string {
 	var cur *ast.DataMessage
 	outs := []string{}
+	// every message the program produced is read again after every later step: a producer must not
+	// change the message it was called on, nor any earlier one (encodings kept inside included)
+	type seen struct {
+		m    *ast.DataMessage
+		show string
+	}
+	var earlier []seen
 	for _, st := range splitSteps(t) {
 		var o string
+		prev := cur
 		cur, o = implStep(cur, st)
+		changed := false
+		for _, e := range earlier {
+			now := ""
+			if pan, _ := safely(func() { now = showMsg(e.m) }); pan || now != e.show {
+				changed = true
+			}
+		}
+		if changed {
+			o += " EARLIER-MESSAGE-CHANGED"
+		}
+		if cur != nil && cur != prev && o != "PANIC" && !strings.HasPrefix(o, "NOMSG") {
+			earlier = append(earlier, seen{cur, strings.TrimSuffix(o, " ARGMUT")})
+		}
 		outs = append(outs, o)
 	}
 	return strings.Join(outs, " | ")
@@ -489,6 +511,7 @@ func implEval(line string) (res string) {
 	if len(t) == 0 {
 		return "BADOP"
 	}
+	recordOp(line)
 	defer func() {
 		if r := recover(); r != nil {
 			if _, ok := r.(badOp); ok {
@@ -566,4 +589,28 @@ func implEval(line string) (res string) {
 		return r
 	}
 	return "BADOP"
+}
+
+// recordOp keeps the operation line that is being interpreted in a file (SECS_LASTOP, set by
+// bin/check): when the library kills the whole process (a Go fatal error - unlock of an unlocked
+// mutex, concurrent map writes, stack exhaustion - is not a panic and cannot be recovered),
+// bin/check reads the line back and reports it as the failing input.
+var lastOpFile *os.File
+var lastOpTried bool
+
+func recordOp(line string) {
+	if !lastOpTried {
+		lastOpTried = true
+		if p := os.Getenv("SECS_LASTOP"); p != "" {
+			lastOpFile, _ = os.OpenFile(p, os.O_CREATE|os.O_RDWR|os.O_TRUNC, 0o644)
+		}
+	}
+	if lastOpFile == nil {
+		return
+	}
+	if len(line) > 1<<16 {
+		line = line[:1<<16]
+	}
+	lastOpFile.Truncate(0)
+	lastOpFile.WriteAt([]byte(line), 0)
 }
